@@ -26,8 +26,7 @@ def run_case(case):
     d = tempfile.mkdtemp(prefix="vyselftest.")
     try:
         subprocess.run(["rsync", "-a", "--exclude", ".git", "--exclude",
-                        "__pycache__", "--exclude", "static", "--exclude",
-                        "templates", REPO_ROOT + "/", d + "/"], check=True)
+                        "__pycache__", REPO_ROOT + "/", d + "/"], check=True)
         if path == "<patch>":
             r = subprocess.run(["patch", "-p1", "-s", "-i", old], cwd=d,
                                capture_output=True, text=True)
